@@ -87,10 +87,9 @@ Inductive items_of (l : language) : nat -> list token -> list fdesc -> Prop :=
     items_of l (off + 1 + length words + length cond + 1 + length body + 1) r ds2 ->
     items_of l off (kw :: words ++ cond ++ o :: body ++ c :: r) (ds1 ++ ds2)
 (* a statement with a brace initialiser: `int a [ ] = { 1 , 2 , 3 } ;`, `const o = { a : 1 } ;`, `enum E { A , B } ;` —
-   no parenthesis before or inside the braces (so no header shape can begin there), an ordinary statement tail after them;
-   something precedes the brace (a block that abuts a function body would be taken into that function) *)
+   no parenthesis before or inside the braces (so no header shape can begin there), an ordinary statement tail after them *)
 | io_init off pre o flat c post semi r ds :
-    pre <> [] -> forallb plain pre = true -> is_lbrace o = true -> forallb plain flat = true -> is_rbrace c = true ->
+    forallb plain pre = true -> is_lbrace o = true -> forallb plain flat = true -> is_rbrace c = true ->
     inner post -> is_symbol semi semicolon = true ->
     items_of l (off + length pre + 1 + length flat + 1 + length post + 1) r ds ->
     items_of l off (pre ++ o :: flat ++ c :: post ++ semi :: r) ds
